@@ -272,7 +272,7 @@ def capped_estimator(cap=ITER_CAP, memo=True):
 # ---------------------------------------------------------------------------
 # datasets and neighbours
 # ---------------------------------------------------------------------------
-ATTRS = ['A', 'B', 'C']
+ATTRS = ['A', 'B', 'C', 'D', 'E', 'F', 'G', 'H']
 
 
 def cells(sizes):
